@@ -88,15 +88,28 @@ def impl(case):
         return res
     if k == "range":
         try:
-            mp = {(float(C.w2q(lo)), float(C.w2q(hi))): models.Const1D(lab) for lo, hi, lab in case["ranges"]}
+            vary = case.get("vary")
+            # vary: the label transform depends on the input (label = 1000 * lab + 8 * key: whole numbers for the dyadic keys used), as a
+            # mapper that computes slit numbers from positions does; decoded back to `lab` below, anything else shows as -999
+            mp = {(float(C.w2q(lo)), float(C.w2q(hi))): (models.Polynomial1D(1, c0=1000.0 * lab, c1=8.0) if vary else models.Const1D(lab))
+                  for lo, hi, lab in case["ranges"]}
             lm = selector.LabelMapperRange(("x",), mp, inputs_mapping=models.Mapping((0,)))
         except Exception as e:
             return {"err": _err(e)}
         keys = np.array([float("nan") if kk == "nan" else float(C.w2q(kk)) for kk in case["keys"]])
+
+        def dec(v, key):
+            v = float(v)
+            if not vary or v == 0:
+                return int(v)
+            for _lo, _hi, lab in case["ranges"]:
+                if v == 1000.0 * lab + 8.0 * key:
+                    return int(lab)
+            return -999
         try:
             r = lm(keys)
-            out = {"labels": [int(v) for v in np.asarray(r).ravel()], "shape": list(np.shape(r))}
-            out["scalar"] = [int(lm(float(v))) for v in keys]
+            out = {"labels": [dec(v, kf) for v, kf in zip(np.asarray(r).ravel(), keys)], "shape": list(np.shape(r))}
+            out["scalar"] = [dec(lm(float(v)), float(v)) for v in keys]
             return out
         except Exception as e:
             return {"eval_err": _err(e)}
@@ -398,7 +411,7 @@ def gen(rng, tier):
             lo, hi, _l = rng.choice(rs)
             lo, hi = C.w2q(lo), C.w2q(hi)
             keys.append(rng.choice([C.q2w((lo + hi) / 2), C.q2w(lo), C.q2w(hi), C.q2w(lo - 1), C.q2w(hi + Fraction(1, 4)), "nan", C.q2w(lo + Fraction(1, 8))]))
-        yield {"kind": "range", "ranges": rs, "keys": keys, "style": style}
+        yield {"kind": "range", "ranges": rs, "keys": keys, "style": style, "vary": rng.random() < 0.4}
     for _ in range(30 if q else 1500):   # dict
         n = rng.randint(1, 5)
         ks = sorted(rng.sample(range(-40, 40), n))
@@ -427,6 +440,8 @@ def gen(rng, tier):
             case["nout"] = 1
         if rng.random() < 0.25:
             case["undef"], case["undef_int"] = -100.0, True
+            # ... which only shows when the region transforms return fractional values
+            case["sel"] = [[e[0], C.q2w(Fraction(1, 2)), e[2], e[3], e[4]] for e in sel]
         npts = rng.choice([1, 4, 6, 8])
         if mapper == "array":
             ny, nx = rng.randint(2, 7), rng.randint(2, 8)
